@@ -48,13 +48,13 @@ class Sim:
         return self.sym[name]
 
     def poke_sym(self, name, value, size=1):
-        a = self.addr(name)
+        a = self.expr(name) if "+" in name else self.addr(name)
         self.mem[a] = value & 0xff
         if size == 2 or value > 0xff or value < -128:
             self.mem[a + 1] = (value >> 8) & 0xff
 
     def peek_sym(self, name, size=1):
-        a = self.addr(name)
+        a = self.expr(name) if "+" in name else self.addr(name)
         v = self.mem.get(a, 0)
         if size == 2:
             v |= self.mem.get(a + 1, 0) << 8
